@@ -59,6 +59,13 @@ def cmd (name : String) : P String := do
   | "apply" => do
       let norb ← nat; let v ← vec; let o ← op
       return showVec (applyOpFqe norb o v)
+  -- the same in the convention of number-broken (Sz-conserving) wavefunctions
+  | "applynb" => do
+      let norb ← nat; let v ← vec; let o ← op
+      return showVec (applyOpFqeNB norb o v)
+  | "expectnb" => do
+      let norb ← nat; let bra ← vec; let ket ← vec; let o ← op
+      return GQ.toStr (inner (iotaNB norb bra) (applyOpSpec o (iotaNB norb ket)))
   -- Spec action without ι (Jordan–Wigner / OpenFermion convention in and out)
   | "applyspec" => do
       let v ← vec; let o ← op
